@@ -72,6 +72,7 @@ fn s07_time_fields() {
     assert!(h < 24 && mi < 60 && s < 60 && us < 1_000_000);
     assert!(h as i64 * 3_600_000_000 + mi as i64 * 60_000_000 + s as i64 * 1_000_000 + us as i64 == t);
     assert!(mk_time(t).hour() == Some(h as i32) && mk_time(t).minute() == Some(mi as i32));
+    assert!(mk_time(t).second() == Some((t % 60_000_000) as f64 / 1_000_000.0));
 }
 
 //@ unit s12_add prop=C12,C02,C03 engine=smt bound="every microsecond of the day x every valid day-time interval (the whole +-8.64e18 us range): add/sub_interval_dt = (t +- i) mod 24 h"
@@ -107,6 +108,7 @@ fn s13_dt() {
     assert!(x.hour() == Some((sg * ((mag / 3_600_000_000) % 24)) as i32));
     assert!(x.minute() == Some((sg * ((mag / 60_000_000) % 60)) as i32));
     assert!((-x).usecs() == -v);
+    assert!(x.second() == Some((sg * (mag % 60_000_000)) as f64 / 1_000_000.0));
 }
 
 //@ unit s13_ym prop=C13,C02,C03 engine=smt bound="every valid year-month interval: extract and the signed year()/month() accessors"
@@ -146,4 +148,220 @@ fn s16_try_from_usecs() {
         Ok(x) => assert!(good && x.usecs() == u),
         Err(e) => assert!(!good && matches!(e, Error::DateOutOfRange)),
     }
+}
+
+// ---- C05 / C02: TryFrom<NaiveDateTime> (the value the parsed fields denote) -------------------
+use crate::format::NaiveDateTime;
+
+fn any_naive(ylo: i32, yhi: i32) -> NaiveDateTime {
+    let year: i32 = kani::any();
+    let month: u32 = kani::any();
+    let day: u32 = kani::any();
+    let hour: u32 = kani::any();
+    let minute: u32 = kani::any();
+    let sec: u32 = kani::any();
+    let usec: u32 = kani::any();
+    let negative: bool = kani::any();
+    kani::assume(year >= ylo && year <= yhi);
+    NaiveDateTime { year, month, day, hour, minute, sec, usec, ampm: None, negative }
+}
+
+fn o_days_since_epoch(y: i32, m: u32, d: u32) -> i64 {
+    let y1 = (y - 1) as i64;
+    y1 * 365 + y1 / 4 - y1 / 100 + y1 / 400 + o_doy(y, m, d) as i64 - 1 + DAY_MIN as i64
+}
+
+fn tod_total(dt: &NaiveDateTime) -> i128 {
+    dt.hour as i128 * 3_600_000_000 + dt.minute as i128 * 60_000_000 + dt.sec as i128 * 1_000_000 + dt.usec as i128
+}
+
+//@ unit s05_conv_date prop=C05,C02,C03 engine=smt bound="every NaiveDateTime (all nine fields symbolic; |year| <= 999,999,999 as the nine-digit parser can produce): Date::try_from = the date denoted or the documented error"
+fn s05_conv_date() {
+    let dt = any_naive(-999_999_999, 999_999_999);
+    let (y, m, d) = (dt.year, dt.month, dt.day);
+    match Date::try_from(dt) {
+        Ok(x) => assert!(o_valid_ymd(y, m, d) && x.days() as i64 == o_days_since_epoch(y, m, d)),
+        Err(_) => assert!(!o_valid_ymd(y, m, d)),
+    }
+}
+
+//@ unit s05_conv_time prop=C05,C02,C03 engine=smt bound="every NaiveDateTime: Time::try_from = h:m:s + usec with the carry, TimeOutOfRange when the carried value reaches 24 h"
+fn s05_conv_time() {
+    let dt = any_naive(-999_999_999, 999_999_999);
+    let fields = dt.hour < 24 && dt.minute < 60 && dt.sec < 60;
+    let total = tod_total(&dt);
+    match Time::try_from(dt) {
+        Ok(x) => assert!(fields && total < USECS_DAY as i128 && x.usecs() as i128 == total),
+        Err(_) => assert!(!(fields && total < USECS_DAY as i128)),
+    }
+}
+
+//@ unit s05_conv_ts prop=C05,C02,C03 engine=smt timeout=1800 bound="every NaiveDateTime: Timestamp::try_from = date and time denoted with the microsecond carry into seconds..days, error iff a field is invalid or the carried value leaves the range"
+fn s05_conv_ts() {
+    let dt = any_naive(-999_999_999, 999_999_999);
+    let (y, m, d) = (dt.year, dt.month, dt.day);
+    let fields = dt.hour < 24 && dt.minute < 60 && dt.sec < 60;
+    let tod = tod_total(&dt);
+    match Timestamp::try_from(dt) {
+        Ok(x) => {
+            assert!(o_valid_ymd(y, m, d) && fields);
+            let total = o_days_since_epoch(y, m, d) as i128 * USECS_DAY as i128 + tod;
+            assert!(x.usecs() as i128 == total && total <= TS_MAX as i128);
+        }
+        Err(_) => {
+            let ok = o_valid_ymd(y, m, d) && fields && o_days_since_epoch(y, m, d) as i128 * USECS_DAY as i128 + tod <= TS_MAX as i128;
+            assert!(!ok);
+        }
+    }
+}
+
+//@ unit s05_conv_od prop=C05,C02,C03,C16 engine=smt timeout=1800 bound="every NaiveDateTime: OracleDate::try_from = the timestamp value floored to the whole second"
+fn s05_conv_od() {
+    let dt = any_naive(-999_999_999, 999_999_999);
+    let (y, m, d) = (dt.year, dt.month, dt.day);
+    let fields = dt.hour < 24 && dt.minute < 60 && dt.sec < 60;
+    let tod = tod_total(&dt);
+    match OracleDate::try_from(dt) {
+        Ok(x) => {
+            assert!(o_valid_ymd(y, m, d) && fields);
+            let total = o_days_since_epoch(y, m, d) as i128 * USECS_DAY as i128 + tod;
+            assert!(x.usecs() as i128 == total - total % 1_000_000 && total <= TS_MAX as i128);
+        }
+        Err(_) => {
+            let ok = o_valid_ymd(y, m, d) && fields && o_days_since_epoch(y, m, d) as i128 * USECS_DAY as i128 + tod <= TS_MAX as i128;
+            assert!(!ok);
+        }
+    }
+}
+
+//@ unit s05_conv_ym prop=C05,C02,C03 engine=smt bound="every NaiveDateTime whose sign flag agrees with the sign of the year field: IntervalYM::try_from = sign x (|years|*12 + months)"
+fn s05_conv_ym() {
+    let dt = any_naive(-999_999_999, 999_999_999);
+    kani::assume(if dt.negative { dt.year <= 0 } else { dt.year >= 0 });
+    let ay = (dt.year as i64).abs();
+    let months = ay * 12 + dt.month as i64;
+    let ok = (ay < 178_000_000 || (ay == 178_000_000 && dt.month == 0)) && dt.month < 12;
+    let neg = dt.negative;
+    match IntervalYM::try_from(dt) {
+        Ok(x) => assert!(ok && x.months() as i64 == if neg { -months } else { months }),
+        Err(_) => assert!(!ok),
+    }
+}
+
+//@ unit s05_conv_dt prop=C05,C02,C03 engine=smt bound="every NaiveDateTime: IntervalDT::try_from = sign x (days, h, m, s, usec) with a fraction of exactly 1,000,000 us carried into the seconds"
+fn s05_conv_dt() {
+    let dt = any_naive(-999_999_999, 999_999_999);
+    let fields = dt.hour < 24 && dt.minute < 60 && dt.sec < 60 && dt.usec <= 1_000_000;
+    let total = dt.day as i128 * USECS_DAY as i128 + tod_total(&dt);
+    let ok = fields && dt.day <= 100_000_000 && total <= DT_MAX as i128;
+    let neg = dt.negative;
+    match IntervalDT::try_from(dt) {
+        Ok(x) => assert!(ok && x.usecs() as i128 == if neg { -total } else { total }),
+        Err(_) => assert!(!ok),
+    }
+}
+
+//@ unit s17_od_delegation prop=C17,C16,C10,C11,C09,C02,C03 engine=smt chunks=range:0:26 quick=all bound="every Oracle-style date (whole-second count, the whole range) for the operation given by the parameter (12 truncations, 12 roundings, add/sub_interval_ym, last_day_of_month): the result is the Timestamp operation's result floored to the second, errors passed through; the Timestamp operation itself is an arbitrary value here (havoc) - it is decided by the C09/C10/C11 obligations"
+fn s17_od_delegation(which: i64) {
+    let secs: i64 = kani::any();
+    let months: i32 = kani::any();
+    kani::assume(secs >= TS_MIN / 1_000_000 && secs <= TS_MAX / 1_000_000 && months >= -YM_MAX && months <= YM_MAX);
+    let od = mk_od(secs * 1_000_000);
+    let ts = mk_ts(secs * 1_000_000);
+    let iv = mk_ym(months);
+    fn fl(r: crate::error::Result<Timestamp>) -> Option<i64> {
+        r.ok().map(|t| t.usecs() - t.usecs().rem_euclid(1_000_000))
+    }
+    fn us(r: crate::error::Result<OracleDate>) -> Option<i64> {
+        r.ok().map(|t| t.usecs())
+    }
+    let (a, b) = match which {
+        0 => (us(od.trunc_century()), fl(ts.trunc_century())),
+        1 => (us(od.trunc_year()), fl(ts.trunc_year())),
+        2 => (us(od.trunc_iso_year()), fl(ts.trunc_iso_year())),
+        3 => (us(od.trunc_quarter()), fl(ts.trunc_quarter())),
+        4 => (us(od.trunc_month()), fl(ts.trunc_month())),
+        5 => (us(od.trunc_week()), fl(ts.trunc_week())),
+        6 => (us(od.trunc_iso_week()), fl(ts.trunc_iso_week())),
+        7 => (us(od.trunc_month_start_week()), fl(ts.trunc_month_start_week())),
+        8 => (us(od.trunc_day()), fl(ts.trunc_day())),
+        9 => (us(od.trunc_sunday_start_week()), fl(ts.trunc_sunday_start_week())),
+        10 => (us(od.trunc_hour()), fl(ts.trunc_hour())),
+        11 => (us(od.trunc_minute()), fl(ts.trunc_minute())),
+        12 => (us(od.round_century()), fl(ts.round_century())),
+        13 => (us(od.round_year()), fl(ts.round_year())),
+        14 => (us(od.round_iso_year()), fl(ts.round_iso_year())),
+        15 => (us(od.round_quarter()), fl(ts.round_quarter())),
+        16 => (us(od.round_month()), fl(ts.round_month())),
+        17 => (us(od.round_week()), fl(ts.round_week())),
+        18 => (us(od.round_iso_week()), fl(ts.round_iso_week())),
+        19 => (us(od.round_month_start_week()), fl(ts.round_month_start_week())),
+        20 => (us(od.round_day()), fl(ts.round_day())),
+        21 => (us(od.round_sunday_start_week()), fl(ts.round_sunday_start_week())),
+        22 => (us(od.round_hour()), fl(ts.round_hour())),
+        23 => (us(od.round_minute()), fl(ts.round_minute())),
+        24 => (us(od.add_interval_ym(iv)), fl(ts.add_interval_ym(iv))),
+        25 => (us(od.sub_interval_ym(iv)), fl(ts.sub_interval_ym(iv))),
+        _ => (Some(od.last_day_of_month().usecs()), fl(Ok(ts.last_day_of_month()))),
+    };
+    assert!(a == b);
+}
+
+//@ unit s16_interval_dt prop=C16,C17,C02,C03 engine=smt bound="every Oracle-style date x every valid day-time interval: add/sub_interval_dt = the exact sum floored to the second, DateOutOfRange iff the exact sum leaves the range"
+fn s16_interval_dt() {
+    let secs: i64 = kani::any();
+    let i: i64 = kani::any();
+    kani::assume(secs >= TS_MIN / 1_000_000 && secs <= TS_MAX / 1_000_000 && i >= -DT_MAX && i <= DT_MAX);
+    let od = mk_od(secs * 1_000_000);
+    for sg in [1i128, -1] {
+        let exact = secs as i128 * 1_000_000 + sg * i as i128;
+        let r = if sg == 1 { od.add_interval_dt(mk_dt(i)) } else { od.sub_interval_dt(mk_dt(i)) };
+        match r {
+            Ok(x) => assert!(exact >= TS_MIN as i128 && exact <= TS_MAX as i128 && x.usecs() as i128 == exact - exact.rem_euclid(1_000_000)),
+            Err(e) => assert!((exact < TS_MIN as i128 || exact > TS_MAX as i128) && matches!(e, Error::DateOutOfRange)),
+        }
+    }
+}
+
+//@ unit s16_add_days prop=C16,C02,C03 engine=smt bound="every Oracle-style date and every value the underlying Timestamp::add_days can return (havoc): the result is that value rounded to the nearest whole second (ties away from zero) in exact integer arithmetic, DateOutOfRange iff the rounded value is past the maximum; the f64 offset itself is covered by c08_ts_add_days and c16_add_days_pool"
+fn s16_add_days() {
+    // native twin: for an offset of hu microseconds expressed in days the real code must agree
+    let secs: i64 = kani::any();
+    let hu: i64 = kani::any();
+    kani::assume(secs >= TS_MIN / 1_000_000 && secs <= TS_MAX / 1_000_000 && hu >= TS_MIN && hu <= TS_MAX);
+    let od = mk_od(secs * 1_000_000);
+    // choose the offset that moves the date to hu when it is exactly representable
+    let delta = hu as i128 - secs as i128 * 1_000_000;
+    let days = delta as f64 / 86_400_000_000.0;
+    let back = (days * 86_400_000_000.0).round();
+    if back as i128 != delta {
+        return; // not exactly reachable through the f64 offset: nothing to replay
+    }
+    let lo = hu - hu.rem_euclid(1_000_000);
+    let fr = hu - lo;
+    let e = if fr > 500_000 { lo + 1_000_000 } else if fr < 500_000 { lo } else if hu > 0 { lo + 1_000_000 } else { lo };
+    match od.add_days(days) {
+        Ok(x) => assert!(x.usecs() == e && e <= TS_MAX),
+        Err(_) => assert!(e > TS_MAX),
+    }
+}
+
+//@ unit s10_ts_clock_units prop=C10,C11,C02,C03 engine=smt bound="every valid timestamp (one symbolic i64): trunc_day/hour/minute and round_day/hour/minute against floor arithmetic on the microsecond count; Err(DateOutOfRange) iff the rounded instant is after the maximum"
+fn s10_ts_clock_units() {
+    let u: i64 = kani::any();
+    kani::assume(u >= TS_MIN && u <= TS_MAX);
+    let ts = mk_ts(u);
+    let n = u.div_euclid(USECS_DAY);
+    let t = u.rem_euclid(USECS_DAY);
+    let (h, m) = (3_600_000_000i64, 60_000_000i64);
+    let chk = |r: crate::error::Result<Timestamp>, e: i64| match r {
+        Ok(v) => assert!(v.usecs() == e && e <= TS_MAX),
+        Err(_) => assert!(e > TS_MAX),
+    };
+    chk(ts.trunc_day(), n * USECS_DAY);
+    chk(ts.trunc_hour(), n * USECS_DAY + t / h * h);
+    chk(ts.trunc_minute(), n * USECS_DAY + t / m * m);
+    chk(ts.round_day(), (n + if t >= USECS_DAY / 2 { 1 } else { 0 }) * USECS_DAY);
+    chk(ts.round_hour(), n * USECS_DAY + (t + h / 2) / h * h);
+    chk(ts.round_minute(), n * USECS_DAY + (t + m / 2) / m * m);
 }
